@@ -126,6 +126,7 @@ fn run_seq(script: &[Op]) -> (String, String, String) {
     let mut fail = None::<String>;
     let mut tags = std::collections::BTreeSet::new();
     let mut last_timer_slot: Option<(u64, u64)> = None;
+    let mut late_return = None::<String>;
     for op in script {
         match op {
             Op::Gap(k) => {
@@ -200,8 +201,8 @@ fn run_seq(script: &[Op]) -> (String, String, String) {
                 else if tret < et && fail.is_none() {
                     fail = Some(format!("R{}@{} returned at {} before {}", d, t, tret, et));
                 }
-                else if tret > et + 1 {
-                    run.late = true;
+                if tret > et + 1 {
+                    late_return.get_or_insert(format!("{:?} started at {} returned at {} instead of {}", op, t, tret, et));
                 }
                 if et > t {
                     tags.insert("waited");
@@ -226,8 +227,8 @@ fn run_seq(script: &[Op]) -> (String, String, String) {
                 else if tret < et && fail.is_none() {
                     fail = Some(format!("B@{} returned at {} before {}", t, tret, et));
                 }
-                else if tret > et + 1 {
-                    run.late = true;
+                if tret > et + 1 {
+                    late_return.get_or_insert(format!("{:?} started at {} returned at {} instead of {}", op, t, tret, et));
                 }
                 if et > t {
                     tags.insert("waited");
@@ -241,10 +242,11 @@ fn run_seq(script: &[Op]) -> (String, String, String) {
     if run.late {
         tags.insert("late");
     }
-    let verdict = match (&fail, run.late) {
-        (Some(f), false) => format!("FAIL {}", f),
-        (_, true) => "inconclusive".into(),
-        (None, false) => "ok".into(),
+    let verdict = match (&fail, run.late, &late_return) {
+        (_, true, _) => "inconclusive".into(),
+        (_, false, Some(l)) => format!("LATE {}", l),
+        (Some(f), false, None) => format!("FAIL {}", f),
+        (None, false, None) => "ok".into(),
     };
     (trace, verdict, tags.into_iter().collect::<Vec<_>>().join(","))
 }
@@ -334,9 +336,12 @@ fn run_parallel(scripts: Vec<Vec<Op>>, threads: usize) -> Vec<(String, String, S
             let mut r = run_seq(&scripts[i]);
             // an inconclusive (late) run is repeated, never reported
             let mut tries = 0;
-            while r.1 == "inconclusive" && tries < 3 {
+            while (r.1 == "inconclusive" || r.1.starts_with("LATE")) && tries < 5 {
                 r = run_seq(&scripts[i]);
                 tries += 1;
+            }
+            if r.1.starts_with("LATE") {
+                r.1 = format!("FAIL persistently {}", &r.1[5..]);
             }
             results.lock().unwrap()[i] = Some(r);
         }));
@@ -346,6 +351,548 @@ fn run_parallel(scripts: Vec<Vec<Op>>, threads: usize) -> Vec<(String, String, S
     }
     let r = results.lock().unwrap().clone();
     r.into_iter().map(|x| x.unwrap()).collect()
+}
+
+
+// =================================================================================================
+// two-thread histories on a finer grid (C08 / C16): unit = 500 us, tick = 8 units;
+// sender calls at phase 1, timer deadlines at phase 3 (durations = 8k+2), receiver calls at phase 5,
+// receive timeouts at phase 7 (timeouts = 8k+2): the four classes of instants never coincide.
+
+const UNIT_US: u64 = 500;
+
+#[derive(Clone, Debug)]
+enum SOp {
+    Send(u64),
+    Prio(u64),
+    Timer(u64, u64),
+    Cancel(usize),
+}
+#[derive(Clone, Debug)]
+enum ROp {
+    Try,
+    RecvTimeout(u64),
+    Recv,
+}
+
+struct Grid {
+    start: Instant,
+}
+impl Grid {
+    fn unit_now(&self) -> u64 {
+        self.start.elapsed().as_micros() as u64 / UNIT_US
+    }
+    /// sleep until phase `phase` of a tick >= min_tick whose slot has not started yet; returns the unit
+    fn slot(&self, min_tick: u64, phase: u64) -> (u64, bool) {
+        let mut t = min_tick * 8 + phase;
+        let mut missed = false;
+        loop {
+            let target = self.start + Duration::from_micros(t * UNIT_US + 30);
+            let now = Instant::now();
+            if now < target {
+                std::thread::sleep(target - now);
+            }
+            let el = self.start.elapsed().as_micros() as u64;
+            if el < t * UNIT_US + 300 {
+                // a sender whose planned slot was missed changes the schedule: inconclusive
+                return (t, missed && phase == 1)
+            }
+            if el < (t + 1) * UNIT_US {
+                return (t, true) // started, but late inside the slot: inconclusive
+            }
+            t += 8;
+            missed = true;
+        }
+    }
+}
+
+/// reference for two-thread histories: expected (result, return unit) of every receive call
+fn ref_conc(tokens: &[(u64, String)]) -> Vec<(Option<u64>, u64)> {
+    // parse sender tokens
+    #[derive(Clone)]
+    enum Ev {
+        Plain(u64),
+        Prio(u64),
+        Timer(u64, u64),
+        Cancel(usize),
+        Call(char, u64),
+    }
+    let mut evs: Vec<(u64, Ev)> = vec![];
+    for (t, tok) in tokens {
+        let lhs = tok.split('=').next().unwrap();
+        let op = lhs.split('@').next().unwrap();
+        let (k, arg) = op.split_at(1);
+        let ev = match k {
+            "s" => Ev::Plain(arg.parse().unwrap()),
+            "p" => Ev::Prio(arg.parse().unwrap()),
+            "t" => {
+                let (id, d) = arg.split_once(':').unwrap();
+                Ev::Timer(id.parse().unwrap(), d.parse().unwrap())
+            }
+            "c" => Ev::Cancel(arg.parse().unwrap()),
+            "T" => Ev::Call('T', 0),
+            "R" => Ev::Call('R', arg.parse().unwrap()),
+            _ => Ev::Call('B', 0),
+        };
+        evs.push((*t, ev));
+    }
+    let mut rq = RefQ::default();
+    let mut keys: Vec<(u64, u64, u64)> = vec![];
+    let mut out = vec![];
+    let mut i = 0;
+    let apply = |rq: &mut RefQ, keys: &mut Vec<(u64, u64, u64)>, t: u64, ev: &Ev| match ev {
+        Ev::Plain(id) => rq.plain.push_back(*id),
+        Ev::Prio(id) => rq.prio.push_back(*id),
+        Ev::Timer(id, d) => {
+            let k = (t + d, rq.seq, *id);
+            rq.seq += 1;
+            rq.timers.push(k);
+            keys.push(k);
+        }
+        Ev::Cancel(n) => {
+            let k = keys[*n];
+            rq.timers.retain(|x| *x != k);
+        }
+        Ev::Call(..) => {}
+    };
+    while i < evs.len() {
+        let (t, ev) = evs[i].clone();
+        i += 1;
+        match ev {
+            Ev::Call(kind, d) => {
+                let deadline = if kind == 'R' { Some(t + d) } else { None };
+                let mut now = t;
+                loop {
+                    if let Some(e) = rq.pick(now) {
+                        out.push((Some(e), now));
+                        break
+                    }
+                    if kind == 'T' {
+                        out.push((None, now));
+                        break
+                    }
+                    // next instant at which something changes: a sender op, a timer deadline, the timeout
+                    let next_ev = evs.get(i).map(|e| e.0);
+                    let next_timer = rq.timers.iter().map(|x| x.0).min();
+                    let mut cands: Vec<u64> = vec![];
+                    cands.extend(next_ev);
+                    cands.extend(next_timer);
+                    cands.extend(deadline);
+                    let Some(&nx) = cands.iter().min() else {
+                        out.push((None, u64::MAX));
+                        break
+                    };
+                    if Some(nx) == deadline && next_ev.map_or(true, |e| e > nx) && next_timer.map_or(true, |e| e > nx) {
+                        out.push((None, nx));
+                        break
+                    }
+                    if i < evs.len() && evs[i].0 <= nx && matches!(evs[i].1, Ev::Call(..)) {
+                        // the implementation started its next call although, by the reference,
+                        // this one is still blocked: expected "still blocked"
+                        out.push((None, u64::MAX));
+                        break
+                    }
+                    now = nx;
+                    while i < evs.len() && evs[i].0 <= now {
+                        if matches!(evs[i].1, Ev::Call(..)) {
+                            break
+                        }
+                        let (te, e) = evs[i].clone();
+                        apply(&mut rq, &mut keys, te, &e);
+                        i += 1;
+                    }
+                }
+            }
+            other => apply(&mut rq, &mut keys, t, &other),
+        }
+    }
+    out
+}
+
+fn run_conc(sender: &[(u64, SOp)], receiver: &[(u64, ROp)]) -> (String, String, String) {
+    let mut q = EventReceiver::<u64>::default();
+    let tx = q.sender().clone();
+    let grid = std::sync::Arc::new(Grid { start: Instant::now() + Duration::from_millis(2) });
+    std::thread::sleep(Duration::from_millis(2));
+    let n_calls = receiver.len() as u64;
+    let last_tick = sender.iter().map(|x| x.0).chain(receiver.iter().map(|x| x.0)).max().unwrap_or(0);
+    let g2 = grid.clone();
+    let sender_ops: Vec<(u64, SOp)> = sender.to_vec();
+    let st = std::thread::spawn(move || {
+        let mut log: Vec<(u64, String)> = vec![];
+        let mut ids: Vec<TimerId> = vec![];
+        let mut late = false;
+        for (tick, op) in sender_ops {
+            let (t, l) = g2.slot(tick, 1);
+            late |= l;
+            match op {
+                SOp::Send(id) => {
+                    tx.send(id);
+                    log.push((t, format!("s{}@{}", id, t)));
+                }
+                SOp::Prio(id) => {
+                    tx.send_with_priority(id);
+                    log.push((t, format!("p{}@{}", id, t)));
+                }
+                SOp::Timer(id, d) => {
+                    ids.push(tx.send_with_timer(id, Duration::from_micros(d * UNIT_US)));
+                    log.push((t, format!("t{}:{}@{}", id, d, t)));
+                }
+                SOp::Cancel(n) => {
+                    if n < ids.len() {
+                        tx.cancel_timer(ids[n]);
+                        log.push((t, format!("c{}@{}", n, t)));
+                    }
+                }
+            }
+            late |= g2.start.elapsed().as_micros() as u64 >= (t + 1) * UNIT_US;
+        }
+        // sentinels: one plain event per receiver call, so that every blocking call returns
+        for k in 0..n_calls {
+            let (t, l) = g2.slot(last_tick + 4 + k, 1);
+            late |= l;
+            tx.send(9000 + k);
+            log.push((t, format!("s{}@{}", 9000 + k, t)));
+        }
+        (log, late)
+    });
+    let mut rlog: Vec<(u64, String)> = vec![];
+    let mut late = false;
+    let mut min_tick = 0;
+    for (tick, op) in receiver {
+        let (t, l) = grid.slot((*tick).max(min_tick), 5);
+        late |= l;
+        let (tok, tret) = match op {
+            ROp::Try => {
+                let r = q.try_receive();
+                (format!("T@{}={}", t, show(r)), grid.unit_now())
+            }
+            ROp::RecvTimeout(d) => {
+                let r = q.receive_timeout(Duration::from_micros(d * UNIT_US));
+                let tret = grid.unit_now();
+                (format!("R{}@{}={}/{}", d, t, show(r), tret), tret)
+            }
+            ROp::Recv => {
+                let r = q.receive();
+                let tret = grid.unit_now();
+                (format!("B@{}={}/{}", t, r, tret), tret)
+            }
+        };
+        rlog.push((t, tok));
+        min_tick = tret / 8 + 1;
+    }
+    let (slog, slate) = st.join().unwrap();
+    late |= slate;
+    let mut all: Vec<(u64, String)> = slog.into_iter().chain(rlog.into_iter()).collect();
+    all.sort_by_key(|x| x.0);
+    // drop sentinels sent after the last receiver call started (not part of the history)
+    let last_call = all.iter().filter(|x| !x.1.starts_with(['s', 'p', 't', 'c'])).map(|x| x.0).max().unwrap_or(0);
+    let last_ret = all
+        .iter()
+        .filter_map(|x| x.1.split('/').nth(1).and_then(|r| r.parse::<u64>().ok()))
+        .max()
+        .unwrap_or(0)
+        .max(last_call);
+    all.retain(|x| x.0 <= last_ret);
+    let expected = ref_conc(&all);
+    let mut fail = None::<String>;
+    let mut late_return = None::<String>;
+    let mut tags = std::collections::BTreeSet::new();
+    let mut ci = 0;
+    for (t, tok) in &all {
+        if tok.starts_with(['s', 'p', 't', 'c']) {
+            continue
+        }
+        let obs = tok.split('=').nth(1).unwrap();
+        let (ores, oret) = match obs.split_once('/') {
+            Some((a, b)) => (a.to_string(), b.parse::<u64>().unwrap()),
+            None => (obs.to_string(), *t),
+        };
+        let (eres, et) = expected.get(ci).cloned().unwrap_or((None, 0));
+        ci += 1;
+        if oret > et.saturating_add(1) {
+            // returned later than anything the history explains: an OS hiccup if it does not
+            // repeat, a missed wake-up if it does (the runner repeats the case)
+            late_return.get_or_insert(format!("{} expected {}/{} (late)", tok, show(eres), et));
+        }
+        else if show(eres) != ores {
+            fail.get_or_insert(format!("{} expected {}/{}", tok, show(eres), et));
+        }
+        else if oret < et {
+            fail.get_or_insert(format!("{} returned before {}", tok, et));
+        }
+        if et > *t {
+            tags.insert(if eres.map_or(false, |e| e < 9000) { "woken" } else { "waited" });
+        }
+    }
+    if all.iter().any(|x| x.1.starts_with('c')) {
+        tags.insert("cancel");
+    }
+    let trace = format!("vq conc {}", all.iter().map(|x| x.1.clone()).collect::<Vec<_>>().join(" "));
+    let verdict = match (&fail, late, &late_return) {
+        (_, true, _) => "inconclusive".to_string(),
+        (_, false, Some(l)) => format!("LATE {}", l),
+        (Some(f), false, None) => format!("FAIL {}", f),
+        (None, false, None) => "ok".into(),
+    };
+    (trace, verdict, tags.into_iter().collect::<Vec<_>>().join(","))
+}
+
+fn gen_conc_script(rng: &mut Rng) -> (Vec<(u64, SOp)>, Vec<(u64, ROp)>) {
+    let ticks = rng.range(4, 10);
+    let mut sender = vec![];
+    let mut receiver = vec![];
+    let mut id = 1;
+    let mut timers = 0;
+    let mut deadlines: Vec<u64> = vec![];
+    for tick in 0..ticks {
+        if rng.chance(3, 5) {
+            id += 1;
+            let op = match rng.below(10) {
+                0..=2 => SOp::Send(id),
+                3..=4 => SOp::Prio(id),
+                5..=8 => {
+                    // equal logical deadlines from different slots are a few microseconds apart in
+                    // an order the grid does not fix: never generated
+                    let dur = *rng.pick(&[2u64, 10, 10, 18, 26, 8_000_002]);
+                    if deadlines.contains(&(tick * 8 + 1 + dur)) {
+                        SOp::Send(id)
+                    }
+                    else {
+                        deadlines.push(tick * 8 + 1 + dur);
+                        timers += 1;
+                        SOp::Timer(id, dur)
+                    }
+                }
+                _ => {
+                    if timers > 0 {
+                        SOp::Cancel(rng.below(timers) as usize)
+                    }
+                    else {
+                        SOp::Send(id)
+                    }
+                }
+            };
+            sender.push((tick, op));
+        }
+        if rng.chance(2, 5) {
+            let op = match rng.below(6) {
+                0 => ROp::Try,
+                1..=3 => ROp::RecvTimeout(*rng.pick(&[2u64, 10, 18, 34])),
+                _ => ROp::Recv,
+            };
+            receiver.push((tick, op));
+        }
+    }
+    if receiver.is_empty() {
+        receiver.push((0, ROp::Recv));
+    }
+    (sender, receiver)
+}
+
+fn conc_script_of_trace(line: &str) -> Option<(Vec<(u64, SOp)>, Vec<(u64, ROp)>)> {
+    let mut sender = vec![];
+    let mut receiver = vec![];
+    for tok in line.split(' ').skip(2) {
+        let lhs = tok.split('=').next()?;
+        let (op, t) = lhs.split_once('@')?;
+        let tick = t.parse::<u64>().ok()? / 8;
+        let (kind, arg) = op.split_at(1);
+        match kind {
+            "s" => {
+                let id: u64 = arg.parse().ok()?;
+                if id < 9000 {
+                    sender.push((tick, SOp::Send(id)))
+                }
+            }
+            "p" => sender.push((tick, SOp::Prio(arg.parse().ok()?))),
+            "t" => {
+                let (id, dur) = arg.split_once(':')?;
+                sender.push((tick, SOp::Timer(id.parse().ok()?, dur.parse().ok()?)))
+            }
+            "c" => sender.push((tick, SOp::Cancel(arg.parse().ok()?))),
+            "T" => receiver.push((tick, ROp::Try)),
+            "R" => receiver.push((tick, ROp::RecvTimeout(arg.parse().ok()?))),
+            "B" => receiver.push((tick, ROp::Recv)),
+            _ => return None,
+        }
+    }
+    Some((sender, receiver))
+}
+
+fn run_conc_parallel(scripts: Vec<(Vec<(u64, SOp)>, Vec<(u64, ROp)>)>, threads: usize) -> Vec<(String, String, String)> {
+    let n = scripts.len();
+    let scripts = std::sync::Arc::new(scripts);
+    let next = std::sync::Arc::new(std::sync::atomic::AtomicUsize::new(0));
+    let results = std::sync::Arc::new(std::sync::Mutex::new(vec![None; n]));
+    let mut hs = vec![];
+    for _ in 0..threads {
+        let (scripts, next, results) = (scripts.clone(), next.clone(), results.clone());
+        hs.push(std::thread::spawn(move || loop {
+            let i = next.fetch_add(1, std::sync::atomic::Ordering::SeqCst);
+            if i >= scripts.len() {
+                break
+            }
+            let mut r = run_conc(&scripts[i].0, &scripts[i].1);
+            let mut tries = 0;
+            while (r.1 == "inconclusive" || r.1.starts_with("LATE")) && tries < 5 {
+                r = run_conc(&scripts[i].0, &scripts[i].1);
+                tries += 1;
+            }
+            if r.1.starts_with("LATE") {
+                // late in six consecutive runs: not a hiccup
+                r.1 = format!("FAIL persistently {}", &r.1[5..]);
+            }
+            results.lock().unwrap()[i] = Some(r);
+        }));
+    }
+    for h in hs {
+        h.join().unwrap();
+    }
+    let r = results.lock().unwrap().clone();
+    r.into_iter().map(|x| x.unwrap()).collect()
+}
+
+// =================================================================================================
+// many-thread stress histories (C06 / C08): `vq hist …`
+
+fn run_stress(rng: &mut Rng, senders: usize, per: usize) -> (String, String, String) {
+    let mut q = EventReceiver::<u64>::default();
+    let start = Instant::now();
+    let barrier = std::sync::Arc::new(std::sync::Barrier::new(senders));
+    let mut hs = vec![];
+    for sidx in 0..senders {
+        let tx = q.sender().clone();
+        let barrier = barrier.clone();
+        let mut r = Rng::new(rng.next());
+        hs.push(std::thread::spawn(move || {
+            let base = (sidx as u64 + 1) << 24;
+            let (mut plain, mut prio, mut timers) = (vec![], vec![], vec![]);
+            barrier.wait();
+            for i in 0..per as u64 {
+                let id = base + i;
+                match r.below(10) {
+                    0..=3 => {
+                        tx.send(id);
+                        plain.push(id);
+                    }
+                    4..=5 => {
+                        tx.send_with_priority(id);
+                        prio.push(id);
+                    }
+                    _ => {
+                        // equal durations from all threads: same-instant collisions are likely
+                        let dur = *r.pick(&[0u64, 1000, 1000, 1000, 3000, 200_000]);
+                        let sched = start.elapsed().as_micros() as u64;
+                        let tid = tx.send_with_timer(id, Duration::from_micros(dur));
+                        let mut canc = None;
+                        if dur == 200_000 || r.chance(1, 10) {
+                            tx.cancel_timer(tid);
+                            canc = Some(start.elapsed().as_micros() as u64);
+                        }
+                        timers.push((id, sched, dur, canc));
+                    }
+                }
+            }
+            // the sender handle is dropped here, before most events are delivered
+            (plain, prio, timers)
+        }));
+    }
+    // receiver: cycles through the three receive calls until nothing arrives for 30 ms
+    let mut outs: Vec<(u64, u64)> = vec![];
+    let mut k = 0u64;
+    let mut idle_since = Instant::now();
+    let mut results = vec![];
+    let mut joined = false;
+    loop {
+        k += 1;
+        let r = match k % 3 {
+            0 => q.try_receive(),
+            1 => q.receive_timeout(Duration::from_millis(2)),
+            _ => q.receive_timeout(Duration::from_micros(100)),
+        };
+        match r {
+            Some(e) => {
+                outs.push((e, start.elapsed().as_micros() as u64));
+                idle_since = Instant::now();
+            }
+            None => {
+                if !joined && hs.iter().all(|h| h.is_finished()) {
+                    for h in hs.drain(..) {
+                        results.push(h.join().unwrap());
+                    }
+                    joined = true;
+                    idle_since = Instant::now();
+                }
+                if joined && idle_since.elapsed() > Duration::from_millis(30) {
+                    break
+                }
+            }
+        }
+    }
+    // a blocking receive() must also drain: nothing may be left
+    let mut toks = vec![];
+    let mut interleaved = false;
+    for (i, (plain, prio, timers)) in results.iter().enumerate() {
+        toks.push(format!("P{}:{}", i, plain.iter().map(|x| x.to_string()).collect::<Vec<_>>().join(",")));
+        toks.push(format!("Q{}:{}", i, prio.iter().map(|x| x.to_string()).collect::<Vec<_>>().join(",")));
+        toks.push(format!(
+            "W{}:{}",
+            i,
+            timers
+                .iter()
+                .map(|(id, s, d, c)| format!("{}/{}/{}/{}", id, s, d, c.map(|x| x.to_string()).unwrap_or("-".into())))
+                .collect::<Vec<_>>()
+                .join(",")
+        ));
+    }
+    toks.push(format!("O:{}", outs.iter().map(|(e, t)| format!("{}@{}", e, t)).collect::<Vec<_>>().join(",")));
+    // direct oracle (independent of the model)
+    let mut fail = None::<String>;
+    let ids: Vec<u64> = outs.iter().map(|x| x.0).collect();
+    let mut count = std::collections::HashMap::new();
+    for id in &ids {
+        *count.entry(*id).or_insert(0usize) += 1;
+    }
+    let mut switches = 0;
+    for w in ids.windows(2) {
+        if (w[0] >> 24) != (w[1] >> 24) {
+            switches += 1;
+        }
+    }
+    if switches > senders {
+        interleaved = true;
+    }
+    let mut known = std::collections::HashSet::new();
+    for (plain, prio, timers) in &results {
+        for l in [plain, prio] {
+            let got: Vec<u64> = ids.iter().copied().filter(|x| l.binary_search(x).is_ok()).collect();
+            if &got != l {
+                fail.get_or_insert(format!("sender list of {} events: received {} (order or count differs)", l.len(), got.len()));
+            }
+            known.extend(l.iter().copied());
+        }
+        for (id, sched, dur, canc) in timers {
+            known.insert(*id);
+            let n = count.get(id).copied().unwrap_or(0);
+            let early = outs.iter().any(|(e, t)| e == id && *t < sched + dur);
+            let bad = match canc {
+                None => n != 1 || early,
+                Some(ct) => (*ct < sched + dur && n != 0) || n > 1 || early,
+            };
+            if bad {
+                fail.get_or_insert(format!("timer {} (dur {} us, cancelled {:?}) delivered {} times, early={}", id, dur, canc, n, early));
+            }
+        }
+    }
+    if let Some(x) = ids.iter().find(|x| !known.contains(x)) {
+        fail.get_or_insert(format!("invented event {}", x));
+    }
+    let verdict = match fail {
+        Some(f) => format!("FAIL {}", f),
+        None => "ok".into(),
+    };
+    (format!("vq hist {}", toks.join(" ")), verdict, if interleaved { "interleaved".into() } else { String::new() })
 }
 
 fn emit_all(out: &mut impl std::io::Write, rows: Vec<(String, String, String)>) {
@@ -409,9 +956,45 @@ fn main() {
             scripts.retain(|s| s.iter().any(|o| matches!(o, Op::Try | Op::RecvTimeout(_))));
             emit_all(&mut out, run_parallel(scripts, threads));
         }
+        "gen-conc" => {
+            let mut rng = Rng::new(arg_u64(2, 1) ^ 0xc0c0);
+            let n = arg_u64(3, 200);
+            // corpus first: the as-found F10 histories
+            let mut scripts = vec![
+                (vec![(2, SOp::Timer(7, 10))], vec![(0, ROp::Recv)]),
+                (vec![(0, SOp::Timer(1, 18)), (0, SOp::Timer(2, 18)), (1, SOp::Cancel(0))], vec![(0, ROp::RecvTimeout(50)), (3, ROp::RecvTimeout(10))]),
+                (vec![(0, SOp::Timer(1, 26)), (1, SOp::Timer(2, 2))], vec![(0, ROp::Recv), (2, ROp::Recv)]),
+                (vec![(2, SOp::Send(5))], vec![(0, ROp::RecvTimeout(34)), (3, ROp::RecvTimeout(10))]),
+                (vec![(2, SOp::Prio(5))], vec![(0, ROp::Recv)]),
+            ];
+            for _ in 0..n {
+                scripts.push(gen_conc_script(&mut rng));
+            }
+            emit_all(&mut out, run_conc_parallel(scripts, threads));
+        }
+        "gen-stress" => {
+            let mut rng = Rng::new(arg_u64(2, 1) ^ 0x5757);
+            let n = arg_u64(3, 4);
+            let per = arg_u64(4, 2000) as usize;
+            for i in 0..n {
+                let senders = [2usize, 4, 8, 16][(i % 4) as usize];
+                let (c, v, t) = run_stress(&mut rng, senders, per);
+                emit(&mut out, &c, "ok", &v, &t);
+            }
+        }
         "run" => {
             for line in stdin_lines() {
-                if line.starts_with("vq seq") {
+                if line.starts_with("vq conc") {
+                    match conc_script_of_trace(&line) {
+                        Some(script) => emit_all(&mut out, run_conc_parallel(vec![script], 1)),
+                        None => emit(&mut out, &line, "bad-case", "ok", ""),
+                    }
+                }
+                else if line.starts_with("vq hist") {
+                    // a stress history cannot be re-executed deterministically: it is re-judged as recorded
+                    emit(&mut out, &line, "ok", "ok", "recorded");
+                }
+                else if line.starts_with("vq seq") {
                     match script_of_trace(&line) {
                         Some(script) => emit_all(&mut out, run_parallel(vec![script], 1)),
                         None => emit(&mut out, &line, "bad-case", "ok", ""),
